@@ -399,3 +399,27 @@ roundtrip!(roundtrip_trex, trex::TrexBox, BoxType::TrexBox, 32, trex::TrexBox { 
     default_sample_duration: kani::any(), default_sample_size: kani::any(), default_sample_flags: kani::any() });
 roundtrip!(roundtrip_vmhd, vmhd::VmhdBox, BoxType::VmhdBox, 20, vmhd::VmhdBox { version: kani::any(), flags: f24(), graphics_mode: kani::any(),
     op_color: vmhd::RgbColor { red: kani::any(), green: kani::any(), blue: kani::any() } });
+
+// ---------------------------------------------------------------- media kind / track kind names (C16): string-keyed mappings, which Verus does
+// not reason about; every variant against an independent table, both directions (complete over the enumerations)
+#[kani::proof]
+#[kani::unwind(8)]
+fn media_and_track_type_names() {
+    use std::convert::TryFrom;
+    // independent table (names as the crate documents them)
+    let table: [(MediaType, &str); 5] = [(MediaType::H264, "h264"), (MediaType::H265, "h265"), (MediaType::VP9, "vp9"), (MediaType::AAC, "aac"), (MediaType::TTXT, "ttxt")];
+    let i: usize = kani::any();
+    kani::assume(i < 5);
+    let (t, name) = table[i];
+    let s: &str = t.into();
+    assert!(s == name);
+    let s2: &str = (&t).into();
+    assert!(s2 == name);
+    match MediaType::try_from(name) { Ok(x) => assert!(x == t), Err(_) => assert!(false) }
+    assert!(MediaType::try_from("h266").is_err());
+    let tt: [(TrackType, &str); 3] = [(TrackType::Video, "vide"), (TrackType::Audio, "soun"), (TrackType::Subtitle, "sbtl")];
+    let j: usize = kani::any();
+    kani::assume(j < 3);
+    match TrackType::try_from(tt[j].1) { Ok(x) => assert!(x == tt[j].0), Err(_) => assert!(false) }
+    assert!(TrackType::try_from("text").is_err());
+}
